@@ -187,8 +187,9 @@ def _resolve(law, exact):
         return exact[0] if exact is not None else Fraction(law.points[0][0])
     u = yield law
     if exact is not None:
-        return exact[law.outcome_index(u)]
-    v = law.quantile(u)
+        return exact[law.outcome_index(abs(u))]
+    # a negative resolution -u asks for the upper u-quantile (mirrored coupling, see c12.LockstepController)
+    v = law.quantile(u) if u >= 0 else law.quantile_upper(-u)
     if not math.isfinite(v):
         raise Inconclusive("infinite quantile")
     return Fraction(v)
@@ -228,16 +229,21 @@ def eval_rhs(r, st):
     return eval_expr(r, st)
 
 
+CTX = {"sample": 0, "iteration": -1, "target": None}   # where the interpreter is (read by the lock-step controller)
+
+
 def exec_stmts(stmts, st, trace=None):
     for s in stmts:
         t = s[0]
         if t == "assign":
+            CTX["target"] = s[1]
             st[s[1]] = yield from eval_rhs(s[2], st)
             if trace is not None:
                 trace.append(("assign", s[1]))
         elif t == "simul":
             vals = []
-            for r in s[2]:
+            for tv, r in zip(s[1], s[2]):
+                CTX["target"] = tv
                 vals.append((yield from eval_rhs(r, st)))
             for v, x in zip(s[1], vals):
                 st[v] = x
@@ -263,11 +269,13 @@ def exec_stmts(stmts, st, trace=None):
 def run(prog, iterations, samples, trace=None):
     """generator; returns runs[sample][iteration] = state (dict var -> Fraction)"""
     runs = []
-    for _ in range(samples):
+    for si in range(samples):
         st = {}
+        CTX["sample"], CTX["iteration"] = si, -1
         yield from exec_stmts(prog["init"], st, trace)
         states = [dict(st)]
         for it in range(iterations):
+            CTX["iteration"] = it
             if eval_cond(prog["guard"], st):
                 st = dict(st)
                 yield from exec_stmts(prog["body"], st, trace)
